@@ -436,7 +436,8 @@ func (u *Unit) bindLocals(ctx *EvalCtx, st *State, at *ssa.BasicBlock) {
 			if obj == nil {
 				continue
 			}
-			if _, isVar := obj.(*types.Var); !isVar {
+			if v, isVar := obj.(*types.Var); !isVar || v.IsField() {
+				// (a selector x.f refers to the field object f: not a local of that name)
 				continue
 			}
 			if cands[obj.Name()] == nil {
